@@ -357,6 +357,9 @@ func runInBubble(s Script) (res vt.Result) {
 			if r, ok := pw.Msg.(*jsonrpc.Request); ok && r.IsCall() && o != memio.WriteOK {
 				if k, ok := kOfRequest(r); ok && k < len(w.calls) {
 					w.calls[k].writeFailed = true
+					// a failed write completes the call like a response does: inside an unsynchronised
+					// group it races with a cancellation of the same call (either error is legitimate)
+					touch(k, "respond")
 				}
 			}
 			w.sc.Release(pw, o)
